@@ -58,15 +58,24 @@ def compileClause (c : Clause) (n : Nat) : ClauseCode × Nat :=
   ({ aliases, declsHead, declsBody, unifs, code }, n')
 
 /-- Compile all clauses of a predicate, threading `cut_if_counter`. -/
-def compilePred (p : Pred) (n : Nat) : List ClauseCode × Nat :=
-  p.clauses.foldl (fun (acc, n) c => let (cc, n') := compileClause c n; (acc ++ [cc], n')) ([], n)
+def compileClauses : List Clause → Nat → List ClauseCode × Nat
+  | [], n => ([], n)
+  | c :: cs, n =>
+      let (cc, n1) := compileClause c n
+      let (ccs, n2) := compileClauses cs n1
+      (cc :: ccs, n2)
+
+def compilePred (p : Pred) (n : Nat) : List ClauseCode × Nat := compileClauses p.clauses n
 
 /-- Allocate one `variable()` per name. -/
 def allocVars (names : List String) (env : Env) (w : World) : Env × World :=
   names.foldl (fun (env, w) v => let (x, w') := w.fresh; (env ++ [(v, .var x)], w')) (env, w)
 
 /-- How a clause body is run: compiled code or the reference semantics. -/
-inductive Mode where | compiled | reference
+inductive Mode where
+  | compiled      -- the generated code: clause activation and body as emitted
+  | reference     -- textbook activation + reference semantics of the body
+  | refbody       -- the activation of the generated code + reference semantics of the body
 deriving Repr, BEq, DecidableEq
 
 /-- Nested `for l in unify(arg_i, expr_i)` loops. -/
@@ -82,6 +91,14 @@ def runClauseCompiled (fuel : Nat) (q : Q) (cc : ClauseCode) (args : List Term) 
   let (env1, w1) := allocVars cc.declsHead env0 w
   let (env2, w2) := allocVars cc.declsBody env1 w1
   unifyHead fuel env2 args cc.unifs (execList q env2 cc.code) k w2
+
+/-- The activation the generated code performs, with the body under the reference semantics
+    (the bridge between `compiled` and `reference`: Theorem A is about the body). -/
+def runClauseRefBody (fuel : Nat) (q : Q) (cc : ClauseCode) (body : Body) (args : List Term) : Gen := fun k w =>
+  let env0 : Env := cc.aliases.map fun (v, i) => (v, args.getD i (.atom "$noarg"))
+  let (env1, w1) := allocVars cc.declsHead env0 w
+  let (env2, w2) := allocVars cc.declsBody env1 w1
+  unifyHead fuel env2 args cc.unifs (solve q env2 0 body) k w2
 
 /-- Textbook clause activation: a new variable for every variable of the clause, head
     arguments unified left to right, then the body under the reference semantics. -/
@@ -296,6 +313,9 @@ def runDef (cfg : Cfg) : Nat → Def → List Term → Gen
       | .reference =>
           leaveFrame (runClauses (fun c => runClauseRef f (query cfg f) c args)
                         p.clauses (wrapK k) w)
+      | .refbody =>
+          leaveFrame (runClauses (fun (x : ClauseCode × Clause) => runClauseRefBody f (query cfg f) x.1 x.2.body args)
+                        ((compilePred p 0).1.zip p.clauses) (wrapK k) w)
   | f+1, .py p, args, k, w => runPy f p.rows p.raiseAt 0 args k w
   | f+1, .builtin b, args, k, w => runBuiltin cfg f b args k w
 def runBuiltin (cfg : Cfg) : Nat → String → List Term → Gen
